@@ -64,11 +64,15 @@ def c01_script(rng, trustA, trustB, full, name, keyA=0, keyB=1):
     """genuine ping / pong / peng, each mutated in every way, presented to receivers in every stage"""
     ops = setup(rng, trustA, trustB, keyA=keyA, keyB=keyB)
     ops.append("iinit a")                                  # m0 = ping
+    ops += ["itick a", "itick a", "itick a"]               # retransmissions: the retry counter of the attempt is not zero any more
+    for m in mutations(rng, 150, full)[:12]:
+        ops.append("ideliver m0 a %s" % m)                 # forged / mutated datagrams at the initiator itself (awaiting pong): nothing of its state may move
     for m in mutations(rng, 150, full):
         ops.append("ideliver m0 b %s" % m)                 # receiver fresh
     ops.append("ideliver m0 b trunc=%d tail=m0" % rng.range(20, 120))     # truncated datagram + stale tail of the buffer
     ops.append("ideliver m0 b trunc=1 tail=m0")
     ops.append("ideliver m0 b")                            # m1 = pong (if B trusts A)
+    ops += ["itick b", "itick b"]                          # the responder has retransmitted: its retry counter is not zero
     for m in mutations(rng, 195, full):
         ops.append("ideliver-from b 0 a %s" % m)           # receiver awaiting pong
     for m in mutations(rng, 150, False):
